@@ -578,4 +578,360 @@ theorem nd_deliver (fuel : Nat) : RecND (deliver specs fuel) := by
       · rename_i h1 h2
         exact seqStep_ND ih (skel_deliver specs n) ev k a b st (by intro hh; exact h1 hh) (by intro hh; exact h2 hh) hn
 
+/-! ### E. Synchronous completion: `blocking ≤ always` -/
+
+/-- `always_inline` or `always`: the receiver is called before start() returns -/
+def BlockingKind.sync (b : BlockingKind) : Bool := b.rank ≤ 1
+
+theorem BlockingKind.max_sync (a b : BlockingKind) : (a.max b).sync = (a.sync && b.sync) := by
+  cases a <;> cases b <;> rfl
+
+theorem BlockingKind.min_maybe_sync (b : BlockingKind) : (b.min .maybe).sync = b.sync := by
+  cases b <;> rfl
+
+theorem waStart_signals (rec : Rec) (a b : Op) (env0 : Env)
+    (ha : ∀ env, ((rec (.start env) a).2.2).isSome = true) (hb : ∀ env, ((rec (.start env) b).2.2).isSome = true) :
+    ((waStart rec a b BinSt.init env0).2.2).isSome = true := by
+  simp only [waStart]
+  generalize hra : rec (Ev.start _) a = ra
+  have hoa : (ra.2.2).isSome = true := by rw [← hra]; exact ha _
+  obtain ⟨ra1, raouts, rasig⟩ := ra
+  cases rasig with
+  | none => simp at hoa
+  | some oa =>
+    generalize hrb : rec (Ev.start _) b = rb
+    have hob : (rb.2.2).isSome = true := by rw [← hrb]; exact hb _
+    obtain ⟨rb1, rbouts, rbsig⟩ := rb
+    cases rbsig with
+    | none => simp at hob
+    | some ob =>
+      obtain ⟨s0, sb⟩ := env0
+      cases oa <;> cases ob <;> cases s0 <;>
+        simp [waRec, waRecord, markSrc, recIf, waFinish, BinSt.init]
+
+theorem swStart_signals (rec : Rec) (a b : Op) (env0 : Env)
+    (ha : ∀ env, ((rec (.start env) a).2.2).isSome = true) (hb : ∀ env, ((rec (.start env) b).2.2).isSome = true) :
+    ((swStart rec a b BinSt.init env0).2.2).isSome = true := by
+  simp only [swStart]
+  generalize hra : rec (Ev.start _) a = ra
+  have hoa : (ra.2.2).isSome = true := by rw [← hra]; exact ha _
+  obtain ⟨ra1, raouts, rasig⟩ := ra
+  cases rasig with
+  | none => simp at hoa
+  | some oa =>
+    generalize hrb : rec (Ev.start _) b = rb
+    have hob : (rb.2.2).isSome = true := by rw [← hrb]; exact hb _
+    obtain ⟨rb1, rbouts, rbsig⟩ := rb
+    cases rbsig with
+    | none => simp at hob
+    | some ob =>
+      simp [setRa, setRb, markSrc, recIf, swFinish, BinSt.init]
+
+theorem seqStart_signals (rec : Rec) (k : BinKind) (a b : Op) (env0 : Env)
+    (ha : ((rec (.start env0) a).2.2).isSome = true) (hb : ∀ env, ((rec (.start env) b).2.2).isSome = true) :
+    ((seqStep rec (.start env0) k a b BinSt.init).2.2).isSome = true := by
+  simp only [seqStep, BinSt.init, seqAfterFirst]
+  cases hra : (rec (.start env0) a).2.2 with
+  | none => simp [hra] at ha
+  | some oa =>
+    simp only []
+    split
+    · have := hb env0
+      cases hrb : (rec (.start env0) b).2.2 with
+      | none => simp [hrb] at this
+      | some ob => simp
+    · simp
+
+theorem uns_sched_inl_start (n : Nat) (env e0 : Env) (j : Nat) :
+    (deliver specs (n+2) (.start env) (.un .unstoppable (.sched .inl j .idle false) .idle e0)).2.2
+      = some (.value 0) := by
+  simp [deliver, unStep, unWrap, schedStep, UnKind.childEnv, UnKind.map]
+
+/-- **start() of an expression whose declared blocking kind is `always_inline` or `always`
+    delivers the completion signal while the `start` event is being processed** -/
+theorem start_signals (e : Expr) : ∀ (cur : Sched) (env : Env) (fuel : Nat), (blocking e).sync = true →
+    (connect cur e).height < fuel →
+    ((deliver specs fuel (.start env) (connect cur e)).2.2).isSome = true := by
+  induction e with
+  | const k =>
+    intro cur env fuel _ hf
+    cases fuel with
+    | zero => omega
+    | succ n => simp [connect, deliver, constStep]
+  | leaf i => intro cur env fuel h; simp [blocking, BlockingKind.sync, BlockingKind.rank] at h
+  | sleaf i =>
+    intro cur env fuel _ hf
+    cases fuel with
+    | zero => omega
+    | succ n => simp [connect, deliver, sleafStep]
+  | never => intro cur env fuel h; simp [blocking, BlockingKind.sync, BlockingKind.rank] at h
+  | sched s j =>
+    intro cur env fuel h hf
+    cases s with
+    | man k => simp [blocking, Sched.blocking, BlockingKind.sync, BlockingKind.rank] at h
+    | inl =>
+      cases fuel with
+      | zero => omega
+      | succ n => simp [connect, deliver, schedStep]
+  | schedCur j => intro cur env fuel h; simp [blocking, BlockingKind.sync, BlockingKind.rank] at h
+  | wsa s j c ih =>
+    intro cur env fuel h hf
+    simp only [blocking, BlockingKind.max_sync, Bool.and_eq_true] at h
+    obtain ⟨hc, hs⟩ := h
+    cases s with
+    | man k => simp [Sched.blocking, BlockingKind.sync, BlockingKind.rank] at hs
+    | inl =>
+      simp only [connect, Op.height] at hf
+      cases fuel with
+      | zero => omega
+      | succ n =>
+        cases n with
+        | zero => omega
+        | succ m =>
+          cases m with
+          | zero => omega
+          | succ m' =>
+            have hha : (connect cur c).height < m' + 2 := by omega
+            simp only [connect, deliver, binStep]
+            apply seqStart_signals
+            · exact ih cur env (m'+2) hc hha
+            · intro env'
+              rw [uns_sched_inl_start]; rfl
+  | un k c ih =>
+    intro cur env fuel h hf
+    have hc : (blocking c).sync = true := by
+      cases k with
+      | erase => simp [blocking, BlockingKind.sync, BlockingKind.rank] at h
+      | doneAsOpt d =>
+        have hm : (BlockingKind.alwaysInline.min .maybe).sync = true := rfl
+        simp only [blocking, BlockingKind.max_sync, hm, Bool.and_true] at h
+        exact h
+      | thenF f => simpa [blocking] using h
+      | unstoppable => simpa [blocking] using h
+      | withSched s => simpa [blocking] using h
+      | matDemat => simpa [blocking] using h
+    cases fuel with
+    | zero => omega
+    | succ n =>
+      simp only [connect, Op.height] at hf
+      have := ih (k.childSched cur) (k.childEnv env) n hc (by omega)
+      simp only [connect, deliver, unStep, unWrap]
+      cases hr : (deliver specs n (Ev.start (k.childEnv env)) (connect (k.childSched cur) c)).2.2 with
+      | none => simp [hr] at this
+      | some o => simp
+  | bin k a b iha ihb =>
+    intro cur env fuel h hf
+    have hab : (blocking a).sync = true ∧ (blocking b).sync = true := by
+      cases k <;>
+        simpa [blocking, BlockingKind.max_sync, BlockingKind.min_maybe_sync] using h
+    cases fuel with
+    | zero => omega
+    | succ n =>
+      simp only [connect, Op.height] at hf
+      have ha := fun env' => iha cur env' n hab.1 (by omega)
+      have hb := fun env' => ihb cur env' n hab.2 (by omega)
+      cases k with
+      | whenAll => simp only [connect, deliver, binStep, waStep, BinSt.init]; exact waStart_signals _ _ _ _ ha hb
+      | stopWhen => simp only [connect, deliver, binStep, swStep, BinSt.init]; exact swStart_signals _ _ _ _ ha hb
+      | letValue => simp only [connect, deliver, binStep]; exact seqStart_signals _ _ _ _ _ (ha env) hb
+      | seq => simp only [connect, deliver, binStep]; exact seqStart_signals _ _ _ _ _ (ha env) hb
+      | fin => simp only [connect, deliver, binStep]; exact seqStart_signals _ _ _ _ _ (ha env) hb
+
+/-! ### F. `on`: nothing of the child happens before the scheduler's context runs the item -/
+
+/-- `on (man c) j e` whose schedule operation has not completed yet -/
+def OnWaiting (c j : Nat) (op : Op) : Prop :=
+  ∃ ph ss b st, op = .bin .seq (.sched (.man c) j ph ss) b st ∧ st.second = false
+
+theorem sched_outs (n : Nat) (ev : Ev) (c j : Nat) (ph : Phase) (ss : Bool) :
+    ∀ o ∈ (deliver specs (n+1) ev (.sched (.man c) j ph ss)).2.1, o = .enq c j := by
+  simp only [deliver, schedStep]
+  split
+  · simp
+  · simp
+  · split <;> simp
+  · simp
+
+theorem on_waiting_step (c j n : Nat) (ev : Ev) (op : Op) (h : OnWaiting c j op) (hev : ev ≠ .fire c j) :
+    OnWaiting c j (deliver specs (n+2) ev op).1 ∧
+    (∀ o ∈ (deliver specs (n+2) ev op).2.1, o = .enq c j) ∧
+    (deliver specs (n+2) ev op).2.2 = none := by
+  obtain ⟨ph, ss, b, st, rfl, hsec⟩ := h
+  have first : ∀ (env : Env) (e' : Ev), e' ≠ .fire c j →
+      OnWaiting c j (seqAfterFirst (deliver specs (n+1)) .seq b st env (deliver specs (n+1) e' (.sched (.man c) j ph ss))).1 ∧
+      (∀ o ∈ (seqAfterFirst (deliver specs (n+1)) .seq b st env (deliver specs (n+1) e' (.sched (.man c) j ph ss))).2.1, o = .enq c j) ∧
+      (seqAfterFirst (deliver specs (n+1)) .seq b st env (deliver specs (n+1) e' (.sched (.man c) j ph ss))).2.2 = none := by
+    intro env e' he'
+    have hsig : (deliver specs (n+1) e' (.sched (.man c) j ph ss)).2.2 = none := by
+      cases hh : (deliver specs (n+1) e' (.sched (.man c) j ph ss)).2.2 with
+      | none => rfl
+      | some o => exact (he' (sched_signal specs (n+1) e' c j ph ss o hh)).elim
+    obtain ⟨ph', ss', hshape⟩ := sched_shape specs (n+1) e' (.man c) j ph ss
+    have houts := sched_outs specs n e' c j ph ss
+    unfold seqAfterFirst
+    simp only [hsig, hshape]
+    exact ⟨⟨ph', ss', b, _, rfl, hsec⟩, houts, by first | rfl | trivial⟩
+  have idle : OnWaiting c j (Op.bin .seq (.sched (.man c) j ph ss) b st) := ⟨ph, ss, b, st, rfl, hsec⟩
+  simp only [deliver, binStep]
+  cases hph : st.ph <;> cases ev <;> simp only [seqStep, hph, hsec]
+  all_goals first
+    | exact first _ _ hev
+    | exact first _ _ (by simp)
+    | exact ⟨idle, by simp, by first | rfl | trivial⟩
+
+/-! ### G. From internal to external events -/
+
+/-- the internal event an external event is turned into (if it is applicable) -/
+def XEv.Matches : XEv → Ev → Prop
+  | .start _, ev => ∃ env, ev = .start env
+  | .stop _, ev => ev = .stop
+  | .complete i o _, ev => ev = .complete i o
+  | .run k _, ev => ∃ j, ev = .fire k j
+
+/-- one external event either is ignored, or delivers exactly one matching internal event to the
+    root with fuel `height + 1` -/
+theorem step_spec (st : St) (x : XEv) :
+    (step specs st x).2.ev = x ∧ (step specs st x).2.ctx = x.ctx ∧
+    (((step specs st x).1.op = st.op ∧ (step specs st x).2.outs = [] ∧ (step specs st x).2.sig = none) ∨
+     (∃ ev, x.Matches ev ∧
+        (step specs st x).1.op = (deliver specs (st.op.height + 1) ev st.op).1 ∧
+        (step specs st x).2.outs = (deliver specs (st.op.height + 1) ev st.op).2.1 ∧
+        (step specs st x).2.sig = (deliver specs (st.op.height + 1) ev st.op).2.2)) := by
+  cases x with
+  | start k =>
+    simp only [step]
+    split
+    · exact ⟨rfl, rfl, .inl ⟨rfl, rfl, rfl⟩⟩
+    · exact ⟨rfl, rfl, .inr ⟨_, ⟨_, rfl⟩, rfl, rfl, rfl⟩⟩
+  | stop k =>
+    simp only [step]
+    split
+    · exact ⟨rfl, rfl, .inl ⟨rfl, rfl, rfl⟩⟩
+    · split
+      · exact ⟨rfl, rfl, .inl ⟨rfl, rfl, rfl⟩⟩
+      · exact ⟨rfl, rfl, .inr ⟨_, rfl, rfl, rfl, rfl⟩⟩
+  | complete i o k =>
+    simp only [step]
+    split
+    · exact ⟨rfl, rfl, .inr ⟨_, rfl, rfl, rfl, rfl⟩⟩
+    · exact ⟨rfl, rfl, .inl ⟨rfl, rfl, rfl⟩⟩
+  | run k last =>
+    simp only [step]
+    split
+    · exact ⟨rfl, rfl, .inl ⟨rfl, rfl, rfl⟩⟩
+    · exact ⟨rfl, rfl, .inr ⟨_, ⟨_, rfl⟩, rfl, rfl, rfl⟩⟩
+
+/-- induction principle for runs: an invariant `I` of the operation tree kept by every internal
+    event that matches an admissible (`A`) external event, and a property `P` of what each such
+    event shows -/
+theorem runX_induct (I : Op → Prop) (A : XEv → Prop) (P : XEv → List Out → Option Outcome → Prop)
+    (hidle : ∀ x, P x [] none)
+    (hstep : ∀ op x ev, I op → A x → x.Matches ev →
+      I (deliver specs (op.height + 1) ev op).1 ∧
+      P x (deliver specs (op.height + 1) ev op).2.1 (deliver specs (op.height + 1) ev op).2.2) :
+    ∀ (xs : List XEv) (st : St), I st.op → (∀ x ∈ xs, A x) →
+      ∀ obs ∈ runX specs st xs, P obs.ev obs.outs obs.sig ∧ obs.ctx = obs.ev.ctx := by
+  intro xs
+  induction xs with
+  | nil => intro st _ _ obs hobs; simp [runX] at hobs
+  | cons x xs ih =>
+    intro st hI hA obs hobs
+    simp only [runX, List.mem_cons] at hobs
+    obtain ⟨hev, hctx, hsp⟩ := step_spec specs st x
+    have hAx := hA x List.mem_cons_self
+    have hA' : ∀ y ∈ xs, A y := fun y hy => hA y (List.mem_cons_of_mem _ hy)
+    rcases hsp with ⟨hop, houts, hsig⟩ | ⟨ev, hm, hop, houts, hsig⟩
+    · rcases hobs with rfl | hobs
+      · rw [hev, houts, hsig, hctx]; exact ⟨hidle x, rfl⟩
+      · exact ih _ (by rw [hop]; exact hI) hA' obs hobs
+    · have := hstep st.op x ev hI hAx hm
+      rcases hobs with rfl | hobs
+      · rw [hev, houts, hsig, hctx]; exact ⟨this.2, rfl⟩
+      · exact ih _ (by rw [hop]; exact this.1) hA' obs hobs
+
+/-! ### H. Connecting the declared traits with the semantic checks on skeletons -/
+
+/-- the expression names the scheduler in scope wherever an affinity claim depends on it:
+    `with_scheduler_affinity(e, s)` is called with the receiver's scheduler (its contract), and
+    `with_query_value(e, get_scheduler, s)` does not CHANGE the scheduler (see
+    `Props.C11.affine_unsound_with_query_value` for what happens otherwise).  Not required below a
+    `wsa` wrapper: it hops back whatever its child does. -/
+def Scoped (cur : Sched) : Expr → Bool
+  | .wsa s _ _ => s == cur
+  | .un k e => (match k with | .withSched s => s == cur | _ => true) && Scoped cur e
+  | .bin _ a b => Scoped cur a && Scoped cur b
+  | _ => true
+
+/-- no dematerialize(materialize(·)) inside -/
+def mdFree : Expr → Bool
+  | .wsa _ _ c => mdFree c
+  | .un k e => (match k with | .matDemat => false | _ => true) && mdFree e
+  | .bin _ a b => mdFree a && mdFree b
+  | _ => true
+
+theorem affOk_connect (c : Nat) (e : Expr) :
+    affine e = true → Scoped (.man c) e = true → affOk c (connect (.man c) e).skel = true := by
+  induction e with
+  | const k => intro _ _; rfl
+  | leaf i => intro h; simp [affine] at h
+  | sleaf i => intro h; simp [affine] at h
+  | never => intro _ _; rfl
+  | sched s j =>
+    intro h _
+    cases s with
+    | inl => rfl
+    | man k => simp [affine, Sched.affine] at h
+  | schedCur j => intro _ _; simp [connect, Op.skel, affOk]
+  | wsa s j x _ =>
+    intro _ hs
+    simp only [Scoped, beq_iff_eq] at hs
+    subst hs
+    simp [connect, Op.skel, affOk, hopper]
+  | un k x ih =>
+    intro ha hs
+    simp only [Scoped, Bool.and_eq_true] at hs
+    cases k with
+    | erase => simp [affine] at ha
+    | withSched s =>
+      have h1 : s = .man c := by simpa using hs.1
+      subst h1
+      simpa [connect, Op.skel, affOk, UnKind.childSched] using ih (by simpa [affine] using ha) hs.2
+    | thenF f => simpa [connect, Op.skel, affOk, UnKind.childSched] using ih (by simpa [affine] using ha) hs.2
+    | unstoppable => simpa [connect, Op.skel, affOk, UnKind.childSched] using ih (by simpa [affine] using ha) hs.2
+    | matDemat => simpa [connect, Op.skel, affOk, UnKind.childSched] using ih (by simpa [affine] using ha) hs.2
+    | doneAsOpt d => simpa [connect, Op.skel, affOk, UnKind.childSched] using ih (by simpa [affine] using ha) hs.2
+  | bin k a b iha ihb =>
+    intro ha hs
+    simp only [affine, Bool.and_eq_true] at ha
+    simp only [Scoped, Bool.and_eq_true] at hs
+    simp [connect, Op.skel, affOk, iha ha.1 hs.1, ihb ha.2 hs.2]
+
+theorem sdSem_connect (e : Expr) : ∀ cur, sdSem (connect cur e).skel = sdSem e := by
+  induction e with
+  | un k x ih => intro cur; cases k <;> simp [connect, Op.skel, sdSem, ih]
+  | bin k a b iha ihb => intro cur; cases k <;> simp [connect, Op.skel, sdSem, iha, ihb]
+  | wsa s j x ih => intro cur; simp [connect, Op.skel, sdSem]
+  | _ => intro cur; simp [connect, Op.skel, sdSem]
+
+theorem sendsDone_eq_sdSem (e : Expr) : mdFree e = true → sendsDone e = sdSem e := by
+  induction e with
+  | un k x ih =>
+    intro h
+    simp only [mdFree, Bool.and_eq_true] at h
+    cases k <;> simp_all [sendsDone, sdSem]
+  | bin k a b iha ihb =>
+    intro h
+    simp only [mdFree, Bool.and_eq_true] at h
+    cases k <;> simp_all [sendsDone, sdSem]
+  | wsa s j x ih => intro _; simp [sendsDone, sdSem]
+  | const k => intro _; cases k <;> simp [sendsDone, sdSem]
+  | _ => intro _; simp [sendsDone, sdSem]
+
+theorem ND_connect (e : Expr) : ∀ cur, ND (connect cur e) := by
+  induction e with
+  | un k x ih => intro cur; exact ih _
+  | bin k a b iha ihb => intro cur; exact ⟨iha _, ihb _, by simp [BinSt.init]⟩
+  | wsa s j x ih => intro cur; exact ⟨ih _, trivial, by simp [BinSt.init]⟩
+  | _ => intro cur; trivial
+
 end Unifex.Ctx
